@@ -237,7 +237,7 @@ def plan(ctx):
                        "blocks": len(cases), "equal-size T=3 blocks subsampled in quick": not th})
     if not th:
         ctx.notes.append("quick: T<=2 complete; T=3: every unequal-size (sizes,beta-tuple) block with a 5-tuple logZ transversal x 7 cyclic logL vectors (rotated by VERIF_SEED); equal-size T=3 blocks every 4th beta-tuple")
-    ctx.explore("history-lattice", cases, chunksize=4)
+    ctx.explore("history-lattice", cases, chunksize=8)
     post = []
     for sizes in ([2, 1], [1, 3, 2], [3, 3]):
         for scale in (1.0, 50.0):
